@@ -8,6 +8,7 @@ INVARIANT NeverWedged
 INVARIANT RefusedOnlyWhenBusy
 INVARIANT OneLive
 INVARIANT GateSound
+INVARIANT StopsMatchSessions
 INVARIANT PointerValid
 PROPERTY Forward
 CHECK_DEADLOCK FALSE
